@@ -74,9 +74,9 @@ class SimRun(Engine):
         tnames = [t for t, _ in types]
         nfl = rw.randint(2, 5)
         fluents = []
-        kinds_pool = {"default": ["bool", "bool", "int", "real", "user", "bool"],
+        kinds_pool = {"default": ["bool", "bool", "int", "real", "user", "bool", "ubint"],
                       "undefined": ["bool", "bool", "uint", "real", "user", "int"],
-                      "numeric": ["int", "int", "real", "bool", "uint", "breal"]}[profile]
+                      "numeric": ["int", "int", "real", "bool", "uint", "breal", "ubint", "lbint", "ubreal", "fbreal"]}[profile]
         from ..gen import FLUENT_TYPES
         for i in range(nfl):
             k = rw.choice(kinds_pool)
